@@ -1,6 +1,7 @@
 """C03 — every supported signature expands to compiling code with the same call type (bounded)."""
 from ..common import Report
-from ..corpus import load, load_repo_tests
+from ..corpus import load, load_repo_tests, load_repo_examples
+from ..docgen import load_repo_docs
 from ..crossgen import load_cross
 from ..model import subst, ty_s
 from ..wrules import FnModView, ImplBlockView, trait_methods, impl_methods, last_seg, check_fnmod_predicates, is_mock_impl
@@ -189,6 +190,8 @@ def run(tier):
     loaded += [(cfg, load_cross(rep, cfg, tier)) for cfg in configs]
     if tier == "thorough":
         loaded.append(("unimock_test", load_repo_tests(rep)))
+        loaded += [("unimock_test", ld) for ld in load_repo_examples(rep)]
+        loaded.append(("unimock_test", load_repo_docs(rep)))
     for cfg, ld in loaded:
         crate = ld.crate
         for exp in crate.expansions:
